@@ -201,6 +201,31 @@ pub fn check(id: &str, tier: Tier) -> i32 {
     }
   }
   if id != "C13" {
+    // one thread recycles (allocate, release, allocate again ...) while the other performs a single operation
+    // that walks the list; shapes include a free block that is the last thing below the cursor, so that a
+    // release can move the cursor back over memory another thread still holds an offset into
+    use TOp::*;
+    let long: Vec<Vec<TOp>> = vec![vec![B(16), DropOwn, B(24)], vec![B(16), DropOwn, B(16), DropOwn], vec![B(24), DropOwn, B(16)], vec![B(16), DropOwn, U64, B(8)]];
+    let mut single: Vec<Vec<TOp>> = vec![vec![B(16)], vec![B(24)], vec![B(100)], vec![DropPre(1)], vec![DropPre(1), B(16)]];
+    if id == "C07" {
+      single.push(vec![Discard]);
+    }
+    let bound = if thorough { 3 } else { 2 };
+    let shapes: Vec<u8> = if thorough { vec![48, 49, 50, 52, 3] } else { vec![48, 49] };
+    let mut count = 0;
+    for fl in [Fl::Optimistic, Fl::Pessimistic] {
+      for shape in &shapes {
+        for l in &long {
+          for s1 in &single {
+            items.push((Harness { fl, unify: true, min_seg: 8, cap: 256, shape: *shape, progs: vec![l.clone(), s1.clone()], own_arenas: false, leave: 0, odd: 0 }, bound));
+            count += 1;
+          }
+        }
+      }
+    }
+    bounds.push(json!({"kind": "recycling thread against one walker", "threads": 2, "preemption_bound": bound, "shapes": shapes, "long": long.iter().map(|p| progs_str(&[p.clone()])).collect::<Vec<_>>(), "single": single.iter().map(|p| progs_str(&[p.clone()])).collect::<Vec<_>>(), "harnesses": count}));
+  }
+  if id != "C13" {
     // regression harnesses: the programs on which the thorough tier found the stale-traversal defect
     // (S13, 3 threads / 3 preemptions), kept in every tier at the bound that exposes them
     use TOp::*;
